@@ -237,7 +237,8 @@ def _source(fmt, revs):
     key = (fmt, tuple(revs))
     p = _state["sources"].get(key)
     if p is None:
-        p = os.path.join(_scratch(), "src%d" % len(_state["sources"]))
+        p = os.path.join(_scratch(), "src%d" % _state["n"])
+        _state["n"] += 1
         os.makedirs(p)
         controldir.format_registry.make_controldir(fmt).initialize(p).create_repository()
         _commit(Repository.open("file://" + p), revs)
@@ -538,7 +539,7 @@ def _run_traced_op(path, fmt, mode, op, ids):
             hint.append((pr[1] % 100000) // 10)
         steps.append([pr] + _state7(prev, cur))
         prev = cur
-    return [init, _canonical(steps), True], hint, problems
+    return [init, _canonical(steps), True], hint, problems, len(snaps) + 1
 
 
 def _run_plain_op(path, fmt, mode, op, ids):
@@ -572,7 +573,8 @@ def _template(fmt, mode, base):
     key = (fmt, mode, repr(base))
     t = _state["templates"].get(key)
     if t is None:
-        p = os.path.join(_scratch(), "tmpl%d" % len(_state["templates"]))
+        p = os.path.join(_scratch(), "tmpl%d" % _state["n"])
+        _state["n"] += 1
         os.makedirs(p)
         cd = controldir.format_registry.make_controldir(fmt)
         if mode == "tree":
@@ -600,15 +602,16 @@ def _run(inp):
     shutil.copytree(tp, path, symlinks=True)
     try:
         ids = _Ids(tids)
-        out, hints, problems = [], [], []
+        out, hints, problems, nsnap = [], [], [], 0
         for i, op in enumerate(inp["ops"]):
-            o, h, pr = _run_traced_op(path, fmt, mode, op, ids)
+            o, h, pr, ns = _run_traced_op(path, fmt, mode, op, ids)
+            nsnap += ns
             out.append(o)
             hints.append(h)
             problems += ["op %d, after %d transport operations: %s" % (i, k, p) for k, p in pr]
         _state["hints"][_key(inp)] = (bhints, hints)
         # the last element is for the oracle only (not predicted by the model)
-        return out + [problems[:20]]
+        return out + [[problems[:20], nsnap]]
     finally:
         shutil.rmtree(path, ignore_errors=True)
 
@@ -794,7 +797,7 @@ def oracle(inp, obs):
     pack() work and list exactly one revision more."""
     if isinstance(obs, Err):
         return "driver error " + str(obs)
-    problems = obs[-1]
+    problems = obs[-1][0]
     if problems:
         return "; ".join(problems[:3])
     exp = _expected_sets(inp)
@@ -835,9 +838,10 @@ def distribution(inputs, observations):
             d["tree_mode"] += 1
         if isinstance(o, Err):
             continue
+        d["crash_points"] += o[-1][1]
         for op in o[:-1]:
             d["traced_ops"] += 1
-            d["crash_points"] += len(op[1]) + 1
+            d["model_operations"] = d.get("model_operations", 0) + len(op[1])
             d["max_packs_listed"] = max(d["max_packs_listed"], len(op[0][3]))
             if any(str(st[0][0]) == "move" and st[0][2] // 100000 == 4 for st in op[1]):
                 d["with_autopack"] += 1
